@@ -69,7 +69,7 @@ func ruleLIST1TO1(c *Ctx) []Obligation {
 			// does the list contain a store at its own level, or in every arm of a switch at its level?
 			var storesAlways func(list []ast.Stmt) (string, bool)
 			leaves := func(list []ast.Stmt) bool {
-				return returnsError(info, list) || endsInPanic(list) || (len(list) > 0 && isReturn(list[len(list)-1]))
+				return returnsError(info, list) || endsInPanic(list) || (len(list) > 0 && isReturn(list[len(list)-1])) || c.sinksError(info, list)
 			}
 			storesAlways = func(list []ast.Stmt) (string, bool) {
 				for _, st := range list {
@@ -123,9 +123,21 @@ func ruleLIST1TO1(c *Ctx) []Obligation {
 			// any store at all (at any depth, outside nested loops and closures)?
 			anyStore, anyDst := token.NoPos, ""
 			var skipPos token.Pos
+			// a `continue` that ends a block in which the error was handed to the collector abandons
+			// the element because it could not be translated: an error path, like a return
+			sunk := map[ast.Node]bool{}
+			ast.Inspect(rs.Body, func(m ast.Node) bool {
+				if blk, ok := m.(*ast.BlockStmt); ok && c.sinksError(info, blk.List) {
+					sunk[blk.List[len(blk.List)-1]] = true
+				}
+				return true
+			})
 			var walk func(n ast.Node, inSwitch bool)
 			walk = func(n ast.Node, inSwitch bool) {
 				ast.Inspect(n, func(m ast.Node) bool {
+					if sunk[m] {
+						return false
+					}
 					switch x := m.(type) {
 					case *ast.FuncLit:
 						return false
@@ -686,6 +698,17 @@ func ruleRESOLVEPATH(c *Ctx) []Obligation {
 					return false
 				case *ast.ReturnStmt:
 					if returnsError(info, []ast.Stmt{x}) {
+						return true
+					}
+					// a return under a test of the error collector's store (`if len(gen.errs) > 0 { return nil }`)
+					// is an error path: the recorded errors are reported by the caller
+					sunk := false
+					for q := pm[x]; q != nil; q = pm[q] {
+						if is, ok := q.(*ast.IfStmt); ok && c.mentionsSinkField(info, is.Cond) {
+							sunk = true
+						}
+					}
+					if sunk {
 						return true
 					}
 					g := map[types.Object]bool{}
